@@ -22,7 +22,7 @@ RULE = (
     "logical types on construction and 4 x 8 physical/logical pairs on parse (headers crafted with my codec) accepted iff "
     "the spec matrix allows; name table 0..7 refused on both sides; each table 4097 / 2^31 refused on read; versions 1..5 "
     "on read (3+ refused, 1 and 2 accepted); (3) exhaustive 8 logical types x {flat, grouped} parser x strict {T,F} x both "
-    "integrations: strict flat parsers accept exactly FLAT_TRIPLES / FLAT_QUADS, strict grouped parsers exactly the five "
+    "integrations (flat also through the pre-read path frames=/options=): strict flat parsers accept exactly FLAT_TRIPLES / FLAT_QUADS, strict grouped parsers exactly the five "
     "grouped types; without strict the logical type never changes the result (metamorphic, crafted streams differing only "
     "in that field). non-trivial = header with >=3 non-default fields, or a point on the accept/reject border; distinct by "
     "case hash."
@@ -202,7 +202,7 @@ def table_cases():
     for ver in (1, 2, 3, 4, 5):
         yield {"kind": "version", "version": ver}
     for integ in ("generic", "rdflib"):
-        for parser in ("flat", "grouped"):
+        for parser in ("flat", "grouped", "flat_preread"):
             for strict in (True, False):
                 for phys in (1, 2, 3):
                     for logical in pyj.LOGICALS:
@@ -212,6 +212,15 @@ def table_cases():
 
 
 def parse_any(data, integ="generic", parser="flat", strict=False):
+    if parser == "flat_preread":
+        # the caller read the header itself and hands options + frames over (documented signature of parse_jelly_flat)
+        from pyjelly.parse.ioutils import get_options_and_frames
+
+        conv = T.from_generic_stmt if integ == "generic" else T.from_rdflib_stmt
+        inp = io.BytesIO(data)
+        options, frames = get_options_and_frames(inp)
+        m = pyj._parse_mod(integ)
+        return scen_norm([conv(x) for x in m.parse_jelly_flat(inp, frames=frames, options=options, logical_type_strict=strict)])
     if parser == "flat":
         return scen_norm(pyj.parse_flat(data, integ, strict=strict))
     return [scen_norm(f) for f in pyj.parse_grouped(data, integ, strict=strict)]
@@ -312,7 +321,7 @@ def body_table(case, acc):
             accepted = False
             got = repr(exc)
         if case["strict"]:
-            want = case["logical"] in (FLAT if case["parser"] == "flat" else GROUPED)
+            want = case["logical"] in (FLAT if case["parser"].startswith("flat") else GROUPED)
             if accepted != want:
                 v = Violation(f"C13:strict-gate:{case['parser']}", f"{case['integration']} {case['parser']} parser, strict: logical type "
                               f"{case['logical']} accepted={accepted}, expected {want}", case)
